@@ -20,6 +20,8 @@ func init() {
 		RunGateBlueprints(p, r)
 		r.RequireMin("GATE-SOLVE", 7)
 		RunArgAlias(p, r)
+		RunOrderGuardBits(p, r, "tobinary")
+		r.RequireMin("ORDER-GUARD", 1)
 		r.RequireMin("ARG-ALIAS", 5)
 		r.RequireMin("COEFF-SWITCH", 100)
 		r.RequireMin("COEFF-TABLE", 40)
